@@ -137,6 +137,25 @@ def run_case(spec):
     viol, sigs = [], set()
     stats = {'solver_did_not_converge_not_judged': 0, 'reference_not_certified': 0, '_worst': 0.0, 'cases_distinguishing_all_mutated_problems': 0}
     evals = 0
+    if kind == 'sdml' and pr == 'identity':
+        # integer-typed pairs with LARGE coordinates (differences ~1e5, squares beyond int32): same metric as the float copy
+        dsL = data.scaled(ds, 2.0 ** 21)
+        PL = dsL.pairs.copy()
+        assert np.array_equal(PL, np.round(PL)) and np.abs(PL).max() < 2 ** 31
+        diffL = PL[:, 0] - PL[:, 1]
+        LmL = (diffL.T * ds.ypairs).dot(diffL)
+        bal = 0.5 * b_max(np.eye(d), LmL)
+        try:
+            Mf = ml.SDML(prior='identity', balance_param=bal, sparsity_param=0.01).fit(PL, ds.ypairs).get_mahalanobis_matrix()
+            for dt in (np.int32, np.int64):
+                Mi = ml.SDML(prior='identity', balance_param=bal, sparsity_param=0.01).fit(PL.astype(dt), ds.ypairs).get_mahalanobis_matrix()
+                evals += 1
+                sigs.add(('SDML', dsn, 'large_int_pairs', np.dtype(dt).name))
+                if np.abs(Mi - Mf).max() > 1e-9 * np.abs(Mf).max():
+                    viol.append(V('SDML.fit', 'integer_pairs_differ', '%s pairs with coordinates ~1e6 give another metric than the same numbers as '
+                                  'floats (relative difference %.3g)' % (np.dtype(dt).name, np.abs(Mi - Mf).max() / np.abs(Mf).max()), [np.dtype(dt).name]))
+        except Exception as e:
+            viol.append(V('SDML.fit', 'raises', 'large integer pairs: fit raised %s: %s' % (type(e).__name__, str(e)[:100]), ['large_int_pairs']))
     if kind == 'sdml':
         P, y = ds.pairs.copy(), ds.ypairs.copy()
         M0, M0inv = priors.prior_matrix(prv, P, d, seed=1)
